@@ -344,9 +344,13 @@ class Ctx:
             )
         # prefer reporting violations with a concrete input first
         self.violations.sort(key=lambda v: not v["found_input"])
+        printed = set()
         for v in self.violations[:10]:
             tail = "" if v["found_input"] else " no-failing-input-found"
             rel = os.path.relpath(v["replay"], ROOT)
+            if rel in printed:
+                continue
+            printed.add(rel)
             print(f"VIOLATION property={self.pid} replay={rel}{tail}", flush=True)
         self.log(
             f"done: obligations {n_ok}/{n_ob}, evaluations {self.evaluations}, "
